@@ -262,6 +262,15 @@ def _excluded(site: ast.AST, arg: ast.AST, f: Func) -> Set[str]:
     g = guards_of(site, f.node)
     for tst, pol in g:
         out |= _cond_excludes(tst, pol, names, argtxt)
+    # 1b. short-circuit operands: in `a and b and X` X runs only when a and b hold (for `or`: when they do not)
+    ch, pp = site, getattr(site, "_parent", None)
+    while pp is not None and pp is not f.node and not isinstance(pp, ast.stmt):
+        if isinstance(pp, ast.BoolOp):
+            for v in pp.values:
+                if v is ch:
+                    break
+                out |= _cond_excludes(v, isinstance(pp.op, ast.And), names, argtxt)
+        ch, pp = pp, getattr(pp, "_parent", None)
     # 2. earlier `if <bad>: return/raise/continue` statements in enclosing blocks
     child = site
     p = getattr(site, "_parent", None)
@@ -368,7 +377,7 @@ def _try_covers(site: ast.AST, f: Func, classes: Tuple[str, ...], t) -> Set[str]
 
 
 def rule_implicit_raisers(ctx, rep, rid: str, only: Optional[Callable[[str], bool]] = None) -> None:
-    rep.rule(rid, "no host operation with a precondition (int/round/floor of NaN or Infinity, chr out of range, math domain/overflow, **, division by zero, struct/bytearray ranges) is applied to a script-derived operand that can violate it, unless the site handles the exception", floor=1 if only else 100)
+    rep.rule(rid, "no host operation with a precondition (int/round/floor of NaN or Infinity, chr out of range, math domain/overflow, **, division by zero, struct/bytearray ranges) is applied to a script-derived operand that can violate it, unless the site handles the exception", floor=1 if only else 60)
     sr = ctx.facts.script_reachable()
     t = ctx.tree
     n_sites = 0
@@ -478,6 +487,11 @@ def _judge(label: str, n: ast.AST, arg: ast.AST, f: Func, env: KindEnv, t, class
     k = env.kind(arg)
     ex = _excluded(n, arg, f)
     if label == "chr":
+        # `expr & MASK` with a non-negative literal mask is in [0, MASK] whatever the (integer) operand is
+        if isinstance(arg, ast.BinOp) and isinstance(arg.op, ast.BitAnd):
+            masks = [x.value for x in (arg.left, arg.right) if isinstance(x, ast.Constant) and isinstance(x.value, int) and not isinstance(x.value, bool)]
+            if masks and 0 <= min(masks) <= 0x10FFFF:
+                return None
         if k == INT and ({"neg"} <= ex or _range_checked(n, arg, f)):
             return None
         if set(classes) <= covered:
